@@ -137,7 +137,7 @@ class Res:
 
 
 class Stratum:
-    def __init__(self, name, cases, checker, size=None, chunk=16, bounds=None, fresh_worker=False):
+    def __init__(self, name, cases, checker, size=None, chunk=16, bounds=None, fresh_worker=False, seq=False):
         self.name = name
         self.cases = cases          # iterable of JSON-able dicts
         self.checker = checker      # name in CHECKERS
@@ -145,6 +145,10 @@ class Stratum:
         self.chunk = chunk
         self.bounds = bounds or {}
         self.fresh_worker = fresh_worker   # every case in a newly forked worker (history-sensitive checks)
+        # sequential pass: in addition to the parallel pass, ONE worker executes all cases of the stratum forwards and then backwards in
+        # the same process, so that every case is also judged (by its usual oracle) in the state left behind by its lattice neighbours
+        # on either side - what a memo keyed by part of the arguments, or any other state kept between calls, needs in order to show
+        self.seq = seq
 
 
 # --------------------------------------------------------------------------
@@ -167,14 +171,24 @@ def _alarm(signum, frame):
     raise CaseTimeout('case did not finish within its horizon (a library call does not terminate?)')
 
 
+# cases that hit their horizon, over all workers of a run (inherited by fork): after ABORT_AFTER_TIMEOUTS of them the remaining
+# cases are not executed (a non-terminating library call would otherwise cost horizon x cases); the run is then reported as
+# not exhaustive, with the timeouts as violations
+_TIMEOUTS = mp.get_context('fork').Value('i', 0)
+ABORT_AFTER_TIMEOUTS = 6
+
+
 def _run_chunk(arg):
     import signal
     checker, cases = arg
     out = Res()
     fn = _MOD.CHECKERS[checker]
-    limit = int(getattr(_MOD, 'CASE_TIMEOUT', 900))
+    limit = int(getattr(_MOD, 'CASE_TIMEOUT', 300))
     signal.signal(signal.SIGALRM, _alarm)
     for c in cases:
+        if _TIMEOUTS.value >= ABORT_AFTER_TIMEOUTS:
+            out.skip('not executed: run aborted after repeated case timeouts')
+            continue
         try:
             signal.alarm(limit)
             try:
@@ -182,6 +196,8 @@ def _run_chunk(arg):
             finally:
                 signal.alarm(0)
         except CaseTimeout as ex:
+            with _TIMEOUTS.get_lock():
+                _TIMEOUTS.value += 1
             r = Res()
             r.ev()
             r.fail('timeout', c, str(ex), tags=['timeout'])
@@ -195,12 +211,28 @@ def _run_chunk(arg):
     return out.pack()
 
 
+def _run_seq(arg):
+    """Sequential pass of one stratum: only the violations and the number of evaluations come back (the counts of the parallel pass
+    are the coverage figures; this pass re-judges the same cases in another process state)."""
+    checker, cases = arg
+    evals, viol = 0, []
+    for pos, c in enumerate(cases):
+        r = Res()
+        r.merge_packed(_run_chunk((checker, [c])))
+        evals += r.evals
+        for v in r.viol:
+            v['tags'] = sorted(set(v.get('tags', [])) | {'sequential-pass'})
+            v['seq_pos'] = pos
+            viol.append(v)
+    return evals, viol
+
+
 def run_case(mod, checker, case):
     import signal
     fn = mod.CHECKERS[checker]
     signal.signal(signal.SIGALRM, _alarm)
     try:
-        signal.alarm(int(getattr(mod, 'CASE_TIMEOUT', 900)))
+        signal.alarm(int(getattr(mod, 'CASE_TIMEOUT', 300)))
         try:
             r = fn(case)
         finally:
@@ -263,6 +295,7 @@ def explore(mod, tier, seed, nproc=None, cap_s=None, log=print):
     samples = []
     bounds = {}
     determinism_checked = []
+    seq_evals = {}
     ctx = mp.get_context('fork')
     pool = ctx.Pool(nproc, initializer=_init_worker, initargs=(mod.__name__,))
     try:
@@ -289,6 +322,13 @@ def explore(mod, tier, seed, nproc=None, cap_s=None, log=print):
                         samples.append({'stratum': st.name, 'checker': st.checker,
                                         'case': ch[len(ch) // 2]})
                     yield (st.checker, ch)
+            seq_job = None
+            if st.seq and not st.fresh_worker:
+                st.cases = list(st.cases)
+                sc = [dict(c, _checker=st.checker) for c in st.cases]
+                seq_list = sc + [dict(c) for c in reversed(sc)]
+                seq_pool = ctx.Pool(1, initializer=_init_worker, initargs=(mod.__name__,), maxtasksperchild=1)      # a fresh process
+                seq_job = seq_pool.apply_async(_run_seq, ((st.checker, seq_list),))
             if st.fresh_worker:
                 fpool = ctx.Pool(nproc, initializer=_init_worker, initargs=(mod.__name__,), maxtasksperchild=1)
                 try:
@@ -300,7 +340,29 @@ def explore(mod, tier, seed, nproc=None, cap_s=None, log=print):
             else:
                 for packed in pool.imap_unordered(_run_chunk, gen()):
                     total.merge_packed(packed)
-            if first_case is not None and not st.fresh_worker:
+            if seq_job is not None:
+                sev, sviol = seq_job.get()
+                seq_pool.terminate()
+                seq_pool.join()
+                seq_evals[st.name] = sev
+                if sviol:
+                    # a violation that needs the history of the pass cannot be confirmed by re-executing its case alone: the whole pass is
+                    # executed once more in another fresh process, and only what fails identically both times is kept
+                    p2 = ctx.Pool(1, initializer=_init_worker, initargs=(mod.__name__,), maxtasksperchild=1)
+                    try:
+                        _, sviol2 = p2.apply(_run_seq, ((st.checker, seq_list),))
+                    finally:
+                        p2.terminate()
+                        p2.join()
+                    again = {(v['clause'], v['seq_pos']) for v in sviol2}
+                    for v in sviol:
+                        if (v['clause'], v['seq_pos']) in again:
+                            v['history'] = seq_list[:v['seq_pos'] + 1]
+                            total.viol.append(v)
+                        else:
+                            log('HARNESS-NONDETERMINISM: sequential-pass violation of %s at position %d did not recur' % (v['clause'], v['seq_pos']))
+                            total.note('sequential_pass_unstable')
+            if first_case is not None and not st.fresh_worker and _TIMEOUTS.value < ABORT_AFTER_TIMEOUTS:
                 # determinism self-check: the first case of the stratum twice in the driver; observations must be identical
                 a = run_case(mod, st.checker, json.loads(json.dumps(first_case, default=_js)))
                 b = run_case(mod, st.checker, json.loads(json.dumps(first_case, default=_js)))
@@ -321,10 +383,13 @@ def explore(mod, tier, seed, nproc=None, cap_s=None, log=print):
     finally:
         pool.terminate()
         pool.join()
+    if _TIMEOUTS.value >= ABORT_AFTER_TIMEOUTS:
+        exhaustive = False
+        log('  run aborted after %d case timeouts: remaining cases were not executed' % _TIMEOUTS.value)
     return total, dict(strata_done=strata_done, strata_skipped=strata_skipped,
                        counts=counts, exhaustive=exhaustive, samples=samples,
                        bounds=bounds, wall=time.time() - t0, nproc=nproc,
-                       determinism_checked=determinism_checked)
+                       determinism_checked=determinism_checked, sequential_pass_evals=seq_evals)
 
 
 def report(mod, tier, seed, total, meta, log=print):
@@ -359,8 +424,11 @@ def report(mod, tier, seed, total, meta, log=print):
     confirmed = []
     for fp, v in reported:
         chk = v['case'].get('_checker') if isinstance(v['case'], dict) else None
-        if chk is None or v['clause'] == 'raised.unexpected' and chk is None:
-            confirmed.append((fp, v))
+        if chk is None or v['clause'] == 'raised.unexpected' and chk is None or 'history' in v:
+            confirmed.append((fp, v))          # (a sequential-pass violation was confirmed by executing the pass twice)
+            continue
+        if v['clause'] == 'timeout' and any(x[1]['clause'] == 'timeout' for x in confirmed):
+            confirmed.append((fp, v))          # one reproduced non-termination is enough; each re-execution costs a full horizon
             continue
         r = run_case(mod, chk, v['case'])
         if any(x['clause'] in (v['clause'], 'raised.unexpected') for x in r.viol):
@@ -386,6 +454,8 @@ def report(mod, tier, seed, total, meta, log=print):
         with open(path, 'w') as f:
             json.dump({'property': pid, 'clause': v['clause'], 'case': v['case'],
                        'detail': v['detail'], 'tags': v['tags'],
+                       **({'history': v['history'], 'history_note': 'execute these cases in this order in one fresh process; the last one fails'}
+                          if 'history' in v else {}),
                        'similar_violations': per_clause[(v['clause'], tuple(v['tags']))],
                        'seed': seed, 'tier': tier}, f, indent=1, default=_js)
         print('VIOLATION property=%s replay=%s' % (pid, path))
@@ -415,6 +485,7 @@ def write_evidence(mod, tier, seed, total, meta, nviol, extra=None):
         'notes': dict(sorted(total.notes.items())),
         'workers': meta['nproc'],
         'determinism_selfcheck_strata': meta.get('determinism_checked', []),
+        'sequential_pass_evaluations': meta.get('sequential_pass_evals', {}),
         'teneva_src': os.environ.get('TENEVA_SRC', '/repo'),
     }
     if mod.LEVEL == 'model_checking':
